@@ -1,10 +1,13 @@
 //go:build verif
 
-// Parser from the text the real iptables rule renderer produces into the abstract rule syntax of
+// Parsers from the text the real iptables and nftables rule renderers produce into the abstract rule syntax of
 // coq/theories/Common/Ipt.v (printed as Coq terms).  Copied from harness/C08/cmd/parse.go (policy rule
 // grammar) and EXTENDED for what the static, dispatch and endpoint chains use: interface matches (with the
-// + wildcard), conntrack state, addrtype, rpfilter, ipvs, --dport, jumps/gotos to Felix chains, NOTRACK.
-// Anything else is an error (never skipped).
+// + wildcard), conntrack state, addrtype, rpfilter, ipvs, --dport, jumps/gotos to Felix chains, NOTRACK; and their
+// nftables forms: iifname/oifname (with the * wildcard), ct state / ct status [!=] dnat, fib daddr|saddr type [!=] local,
+// fib saddr . mark . iif oif 0 (RPF check failed), `udp dport N`, counter jump|goto|notrack.
+// Anything else is an error (never skipped).  An nft rule `icmpv6 type T` without a code is written `MIcmp neg T None`,
+// the iptables form (Ipt.match_one gives MIcmp _ _ None and MIcmpType the same meaning), so one model serves both.
 //
 // Matches that are not functions of the packet record become `MOther k`, k = 2*id + (1 if negated):
 //   id 0 limit, 1 addrtype --dst-type LOCAL, 2 addrtype --src-type LOCAL, 3 conntrack --ctstate DNAT,
@@ -553,3 +556,359 @@ func parseIptables(line string, ver int, sets map[string]int) (string, error) {
 	return a.finish(ver)
 }
 
+// ------------------------------------------------------------------ nftables
+
+func parseNft(line string, ver int, sets map[string]int) (string, error) {
+	a := &ruleAcc{l4proto: -1}
+	if line == "continue" {
+		return a.finish(ver)
+	}
+	tk, err := tokenize(line)
+	if err != nil {
+		return "", err
+	}
+	t := &toks{t: tk}
+	fam := "ip"
+	if ver == 6 {
+		fam = "ip6"
+	}
+	negOp := func() bool {
+		if t.peek() == "!=" {
+			t.next()
+			return true
+		}
+		return false
+	}
+	setRef := func() (int, error) {
+		s := t.next()
+		if !strings.HasPrefix(s, "@") {
+			return 0, fmt.Errorf("expected set reference, got %q", s)
+		}
+		id, ok := sets[s[1:]]
+		if !ok {
+			return 0, fmt.Errorf("unknown set %q", s)
+		}
+		return id, nil
+	}
+	for !t.done() {
+		switch w := t.next(); w {
+		case "meta":
+			switch f := t.next(); f {
+			case "l4proto":
+				ng := negOp()
+				n, err := parseProto(t.next())
+				if err != nil {
+					return "", err
+				}
+				if !ng {
+					a.l4proto = n
+				}
+				a.matches = append(a.matches, fmt.Sprintf("MProto %s %d", b(ng), n))
+			case "mark":
+				if err := t.expect("&"); err != nil {
+					return "", err
+				}
+				mk, err := parseUint32(t.next())
+				if err != nil {
+					return "", err
+				}
+				op := t.next()
+				if op != "==" && op != "!=" {
+					return "", fmt.Errorf("bad mark operator %q", op)
+				}
+				v, err := parseUint32(t.next())
+				if err != nil {
+					return "", err
+				}
+				a.matches = append(a.matches, fmt.Sprintf("MMark %s %d %d", b(op == "!="), v, mk))
+			default:
+				return "", fmt.Errorf("unknown meta key %q", f)
+			}
+		case "ip", "ip6":
+			if w != fam {
+				return "", fmt.Errorf("%s match in an IPv%d rule", w, ver)
+			}
+			dir := t.next()
+			if dir != "saddr" && dir != "daddr" {
+				return "", fmt.Errorf("unknown %s field %q", w, dir)
+			}
+			src := dir == "saddr"
+			if t.peek() == "." {
+				// <ip> saddr . meta l4proto . th sport [!=] @set
+				want := []string{".", "meta", "l4proto", ".", "th", map[bool]string{true: "sport", false: "dport"}[src]}
+				for _, x := range want {
+					if err := t.expect(x); err != nil {
+						return "", err
+					}
+				}
+				ng := negOp()
+				id, err := setRef()
+				if err != nil {
+					return "", err
+				}
+				k := map[bool]string{true: "MSrcIpPortSet", false: "MDstIpPortSet"}[src]
+				a.matches = append(a.matches, fmt.Sprintf("%s %s %d", k, b(ng), id))
+				break
+			}
+			ng := negOp()
+			if strings.HasPrefix(t.peek(), "@") {
+				id, err := setRef()
+				if err != nil {
+					return "", err
+				}
+				k := map[bool]string{true: "MSrcIpSet", false: "MDstIpSet"}[src]
+				a.matches = append(a.matches, fmt.Sprintf("%s %s %d", k, b(ng), id))
+			} else {
+				c, err := parseCIDRText(t.next(), ver)
+				if err != nil {
+					return "", err
+				}
+				k := map[bool]string{true: "MSrcNet", false: "MDstNet"}[src]
+				a.matches = append(a.matches, fmt.Sprintf("%s %s %s", k, b(ng), c))
+			}
+		case "tcp", "udp", "sctp":
+			dir := t.next()
+			if dir != "sport" && dir != "dport" {
+				return "", fmt.Errorf("unknown %s field %q", w, dir)
+			}
+			if a.l4proto != protoNumbers[w] {
+				return "", fmt.Errorf("%s %s without meta l4proto %s in the same rule", w, dir, w)
+			}
+			ng := negOp()
+			var parts []string
+			if t.peek() == "{" {
+				t.next()
+				for t.peek() != "}" {
+					if t.done() {
+						return "", fmt.Errorf("unterminated port set")
+					}
+					parts = append(parts, t.next())
+				}
+				t.next()
+			} else {
+				parts = []string{t.next()} // `udp dport 4789`
+			}
+			pl, err := parsePortList(strings.Join(parts, ""), "-")
+			if err != nil {
+				return "", err
+			}
+			a.needPort = true
+			k := map[bool]string{true: "MSrcPorts", false: "MDstPorts"}[dir == "sport"]
+			a.matches = append(a.matches, fmt.Sprintf("%s %s %s", k, b(ng), pl))
+		case "icmp", "icmpv6":
+			if (w == "icmpv6") != (ver == 6) {
+				return "", fmt.Errorf("%s match in an IPv%d rule", w, ver)
+			}
+			a.needICMP = 1
+			if w == "icmpv6" {
+				a.needICMP = 58
+			}
+			if err := t.expect("type"); err != nil {
+				return "", err
+			}
+			ng := negOp()
+			ty, err := strconv.Atoi(t.next())
+			if err != nil || ty < 0 || ty > 255 {
+				return "", fmt.Errorf("bad icmp type")
+			}
+			if t.peek() != "code" {
+				// type alone: written like the iptables form `MIcmp neg t None` (Ipt.match_one gives both the same meaning)
+				a.matches = append(a.matches, fmt.Sprintf("MIcmp %s %d None", b(ng), ty))
+			} else {
+				a.matches = append(a.matches, fmt.Sprintf("MIcmpType %s %d", b(ng), ty))
+			}
+			if t.peek() == "code" {
+				t.next()
+				ng2 := negOp()
+				c, err := strconv.Atoi(t.next())
+				if err != nil || c < 0 || c > 255 {
+					return "", fmt.Errorf("bad icmp code")
+				}
+				a.matches = append(a.matches, fmt.Sprintf("MIcmpCode %s %d", b(ng2), c))
+			}
+		case "iifname", "oifname":
+			ng := negOp()
+			name := t.next()
+			if name == "" || name == "vmap" || name == "counter" {
+				return "", fmt.Errorf("bad interface name %q after %s", name, w)
+			}
+			wild := strings.HasSuffix(name, "*")
+			if wild {
+				name = name[:len(name)-1]
+			}
+			if strings.ContainsAny(name, "*\"") {
+				return "", fmt.Errorf("bad interface pattern %q", name)
+			}
+			k := "MInIface"
+			if w == "oifname" {
+				k = "MOutIface"
+			}
+			a.matches = append(a.matches, fmt.Sprintf("%s %s %s %s", k, b(ng), nameBytes(name), b(wild)))
+		case "ct":
+			switch f := t.next(); f {
+			case "state":
+				ng := negOp()
+				var sts []string
+				for _, n := range strings.Split(t.next(), ",") {
+					c, ok := ctStates[strings.ToUpper(n)]
+					if !ok {
+						return "", fmt.Errorf("unknown conntrack state %q", n)
+					}
+					sts = append(sts, c)
+				}
+				a.matches = append(a.matches, fmt.Sprintf("MCtState %s %s", b(ng), listTerm(sts)))
+			case "status":
+				ng := negOp()
+				if s := t.next(); s != "dnat" {
+					return "", fmt.Errorf("unsupported ct status %q", s)
+				}
+				a.matches = append(a.matches, other(3, ng))
+			default:
+				return "", fmt.Errorf("unknown ct key %q", f)
+			}
+		case "fib":
+			// fib daddr type [!=] local | fib saddr type [!=] local | fib saddr . oif type [!=] local |
+			// fib saddr . mark . iif oif 0   (reverse path lookup finds no route: RPF check failed)
+			var sel []string
+			for !t.done() && t.peek() != "type" && t.peek() != "oif" {
+				sel = append(sel, t.next())
+			}
+			key := strings.Join(sel, " ")
+			switch t.next() {
+			case "type":
+				ng := negOp()
+				if ty := t.next(); ty != "local" {
+					return "", fmt.Errorf("unsupported address type %q", ty)
+				}
+				switch key {
+				case "daddr":
+					a.matches = append(a.matches, other(1, ng))
+				case "saddr":
+					a.matches = append(a.matches, other(2, ng))
+				case "saddr . oif":
+					a.matches = append(a.matches, other(6, ng))
+				default:
+					return "", fmt.Errorf("unknown fib selector %q", key)
+				}
+			case "oif":
+				if key != "saddr . mark . iif" {
+					return "", fmt.Errorf("unknown fib selector %q", key)
+				}
+				if err := t.expect("0"); err != nil {
+					return "", err
+				}
+				a.matches = append(a.matches, other(4, false))
+			default:
+				return "", fmt.Errorf("bad fib expression")
+			}
+		case "limit":
+			if err := t.expect("rate"); err != nil {
+				return "", err
+			}
+			t.next()
+			if t.peek() == "burst" {
+				t.next()
+				t.next()
+				if err := t.expect("packets"); err != nil {
+					return "", err
+				}
+			}
+			a.matches = append(a.matches, other(0, false))
+		case "counter":
+			// the statement part
+			switch s := t.next(); s {
+			case "return":
+				a.action = "AReturn"
+			case "drop":
+				a.action = "ADrop"
+			case "accept":
+				a.action = "AAccept"
+			case "reject":
+				a.action = "AReject"
+				if t.peek() == "with" {
+					t.next()
+					for !t.done() {
+						t.next()
+					}
+				}
+			case "meta":
+				for _, x := range []string{"mark", "set", "mark"} {
+					if err := t.expect(x); err != nil {
+						return "", err
+					}
+				}
+				switch op := t.next(); op {
+				case "or":
+					x, err := parseUint32(t.next())
+					if err != nil {
+						return "", err
+					}
+					a.action = markAction(^x, x)
+				case "&":
+					and, err := parseUint32(t.next())
+					if err != nil {
+						return "", err
+					}
+					xor := uint32(0)
+					if t.peek() == "^" {
+						t.next()
+						xor, err = parseUint32(t.next())
+						if err != nil {
+							return "", err
+						}
+					}
+					a.action = markAction(and, xor)
+				default:
+					return "", fmt.Errorf("unknown mark expression %q", op)
+				}
+			case "log":
+				if err := t.expect("prefix"); err != nil {
+					return "", err
+				}
+				t.next()
+				switch t.peek() {
+				case "level":
+					t.next()
+					t.next()
+					a.action = "ALog"
+				case "snaplen":
+					t.next()
+					t.next()
+					if err := t.expect("group"); err != nil {
+						return "", err
+					}
+					t.next()
+					a.action = "ANflog"
+				case "group":
+					t.next()
+					t.next()
+					a.action = "ANflog"
+				default:
+					return "", fmt.Errorf("unknown log statement")
+				}
+			case "notrack":
+				a.action = "ANoTrack"
+			case "jump", "goto":
+				tg := t.next()
+				if !strings.HasPrefix(tg, "cali") || strings.ContainsAny(tg, "\"\\ ") {
+					return "", fmt.Errorf("%s to a non-Felix chain %q", s, tg)
+				}
+				if s == "jump" {
+					a.action = fmt.Sprintf("(AJump \"%s\")", tg)
+				} else {
+					a.action = fmt.Sprintf("(AGoto \"%s\")", tg)
+				}
+			case "":
+				return "", fmt.Errorf("counter without statement")
+			default:
+				return "", fmt.Errorf("unknown statement %q", s)
+			}
+			if !t.done() {
+				return "", fmt.Errorf("trailing tokens after statement: %q", t.peek())
+			}
+		default:
+			return "", fmt.Errorf("unknown token %q", w)
+		}
+	}
+	return a.finish(ver)
+}
